@@ -28,6 +28,8 @@ pub enum COp {
     Relays { g: u8, set: u8 },
     Secret { g: u8, epoch: u8, val: u8 },
     Msg { g: u8, id: u8, state: u8 },
+    /// a new message whose created_at grows with its id (no ties: which message a full group evicts is then defined)
+    MsgAged { g: u8, id: u8 },
     InvMsgs { g: u8, epoch: u8 },
     Proc { w: u8, state: u8 },
     SnapCreate { g: u8, name: u8 },
@@ -57,6 +59,12 @@ pub enum COp {
 }
 
 impl COp {
+    /// the group an operation names (None: operations that name no group or every group)
+    pub fn group(&self) -> Option<u8> {
+        let s = format!("{self:?}");
+        let i = s.find("g: ")?;
+        s[i + 3..].chars().take_while(|c| c.is_ascii_digit()).collect::<String>().parse().ok()
+    }
     pub fn class(&self) -> String {
         let s = format!("{self:?}");
         s.split([' ', '{']).next().unwrap_or("").to_string()
@@ -70,6 +78,12 @@ pub fn capply<S: MdkStorageProvider>(s: &S, op: &COp) -> String {
         COp::Relays { g, set } => r(s.replace_group_relays(&gid(*g), relay_set(*set)), |_| "ok".into()),
         COp::Secret { g, epoch, val } => r(s.save_group_exporter_secret(GroupExporterSecret { mls_group_id: gid(*g), epoch: *epoch as u64, secret: Secret::new([*val; 32]) }), |_| "ok".into()),
         COp::Msg { g, id, state } => r(s.save_message(mk_msg(*g, *id, 0, 0, Some(1), *state, 0)), |_| "ok".into()),
+        COp::MsgAged { g, id } => {
+            let mut m = mk_msg(*g, *id, 0, 0, Some(1), 0, 0);
+            m.created_at = nostr::Timestamp::from_secs(m.created_at.as_secs() + *id as u64);
+            m.event.created_at = m.created_at;
+            r(s.save_message(m), |_| "ok".into())
+        }
         COp::InvMsgs { g, epoch } => r(s.invalidate_messages_after_epoch(&gid(*g), *epoch as u64), |v| set_s(v.iter().map(|i| i.to_hex()[60..].to_string()).collect())),
         COp::Proc { w, state } => r(s.save_processed_message(mk_proc(*w, Some(0), Some(1), *state)), |_| "ok".into()),
         COp::SnapCreate { g, name } => r(s.create_group_snapshot(&gid(*g), &format!("snap{name}")), |_| "ok".into()),
@@ -158,6 +172,23 @@ impl Backend for Mem {
     }
 }
 
+/// the memory backend with a per-group message capacity of two (the base state holds one message): concurrent saves
+/// must leave what some sequential order of them leaves, never more than the capacity
+pub struct MemCap(MdkMemoryStorage);
+impl Backend for MemCap {
+    type S = MdkMemoryStorage;
+    fn name() -> &'static str {
+        "memory-capacity-2"
+    }
+    fn fresh(&self) -> &MdkMemoryStorage {
+        &self.0
+    }
+    fn reset(&mut self) {
+        self.0 = MdkMemoryStorage::with_limits(mdk_memory_storage::ValidationLimits::default().with_max_messages_per_group(2));
+        base_state(&self.0);
+    }
+}
+
 pub struct Sql(MdkSqliteStorage);
 impl Backend for Sql {
     type S = MdkSqliteStorage;
@@ -226,6 +257,26 @@ pub fn check_set<B: Backend>(b: &mut B, programs: &[Vec<COp>], bound: Option<usi
         seq.entry(oc.clone()).or_insert_with(|| o.clone());
         per_order.push((o.clone(), oc));
     }
+    // "operations on different groups do not disturb each other": when one thread works on group 1 only and all the
+    // others on group 0 only, what the others get back and everything readable about group 0 afterwards must be what
+    // some sequential order of the others ALONE gives (judged against runs without the bystander, so that a
+    // disturbance which is the same in every order still shows)
+    let bystander: Option<usize> = (0..programs.len()).find(|t| programs.len() >= 2 && programs[*t].iter().all(|o| o.group() == Some(1)) && (0..programs.len()).filter(|u| u != t).all(|u| programs[u].iter().all(|o| o.group() == Some(0))));
+    let g0_view = |fin: &Vec<(String, String)>| -> Vec<(String, String)> { fin.iter().filter(|(k, _)| k.split_once('(').map(|(_, rest)| rest.starts_with("0)") || rest.starts_with("0,")).unwrap_or(false)).cloned().collect() };
+    let mut alone: BTreeSet<(Vec<Vec<String>>, Vec<(String, String)>)> = BTreeSet::new();
+    if let Some(bt) = bystander {
+        let others: Vec<usize> = (0..programs.len()).filter(|t| *t != bt).collect();
+        let olens: Vec<usize> = others.iter().map(|t| lens[*t]).collect();
+        for o in orders(&olens) {
+            b.reset();
+            let s = b.fresh();
+            let mut results: Vec<Vec<String>> = olens.iter().map(|l| vec![String::new(); *l]).collect();
+            for (k, i) in &o {
+                results[*k][*i] = capply(s, &programs[others[*k]][*i]);
+            }
+            alone.insert((results, g0_view(&final_phase(s))));
+        }
+    }
     let n = programs.len();
     let mut res = SetResult { schedules: 0, decisions: 0, outcomes: 0, sequential_outcomes: seq.len(), capped: false, findings: Vec::new() };
     let mut seen: BTreeSet<u64> = BTreeSet::new();
@@ -267,6 +318,30 @@ pub fn check_set<B: Backend>(b: &mut B, programs: &[Vec<COp>], bound: Option<usi
         let h = h64(&format!("{:?}{:?}", oc.results, oc.fin));
         if !seen.insert(h) {
             return true;
+        }
+        if let Some(bt) = bystander {
+            let proj: Vec<Vec<String>> = (0..n).filter(|t| *t != bt).map(|t| oc.results[t].clone()).collect();
+            let view = g0_view(&oc.fin);
+            if !alone.contains(&(proj.clone(), view.clone())) {
+                let mut d: BTreeSet<String> = BTreeSet::new();
+                if !alone.iter().any(|(r, _)| *r == proj) {
+                    d.insert("results-of-the-other-threads".into());
+                }
+                if let Some((_, v)) = alone.iter().find(|(r, _)| *r == proj).or(alone.iter().next()) {
+                    for (a, bb) in v.iter().zip(view.iter()) {
+                        if a != bb {
+                            d.insert(format!("state:{}", a.0.split('(').next().unwrap_or("")));
+                        }
+                    }
+                }
+                let what = d.into_iter().collect::<Vec<_>>().join("+");
+                findings.push((
+                    format!("C19|{}|another-groups-operation-disturbs|{}|{what}", B::name(), classes.join(" || ")),
+                    format!("programs {programs:?} under schedule {choices:?}: thread {bt} works on group 1 only, yet the other threads' results / group 0's readable state ({what}) are not what those threads alone produce in any order"),
+                    json!({"backend": B::name(), "programs": programs, "schedule": choices, "results": oc.results}),
+                ));
+                return true;
+            }
         }
         // a sequential order with this outcome that also respects real-time order (a call that returned before another was invoked comes first)
         let ok = per_order.iter().any(|(o, soc)| {
@@ -355,9 +430,19 @@ pub fn alphabet(theme: &str) -> Vec<COp> {
             COp::Relays { g: 0, set: 2 },
             COp::MlsLeaf { g: 0, val: 2 },
             COp::SaveGroup { g: 1, name: 1, epoch: 2 },
+            // the other group takes a snapshot under the name group 0's base snapshot has
+            COp::SnapCreate { g: 1, name: 0 },
             COp::RSnaps { g: 0 },
             COp::RMlsState { g: 0 },
             COp::RGroup { g: 0 },
+        ],
+        "message-capacity" => vec![
+            COp::MsgAged { g: 0, id: 1 },
+            COp::MsgAged { g: 0, id: 2 },
+            COp::MsgAged { g: 0, id: 3 },
+            COp::Msg { g: 0, id: 0, state: 2 },
+            COp::MsgAged { g: 1, id: 1 },
+            COp::RMsgs { g: 0 },
         ],
         "welcomes" => vec![
             COp::Welcome { id: 0, state: 0 },
@@ -514,6 +599,7 @@ pub fn check_c19(rep: &mut Report, thorough: bool) {
     }
     run_backend(&|| { let mut m = Mem(MdkMemoryStorage::default()); m.reset(); m }, rep, &themes, &shapes, bound, 20_000, thorough);
     run_backend(&|| { let mut m = Sql(storex::fresh_sqlite()); m.reset(); m }, rep, &themes, &shapes, bound, 20_000, thorough);
+    run_backend(&|| { let mut m = MemCap(MdkMemoryStorage::default()); m.reset(); m }, rep, &["message-capacity"], &shapes, bound, 20_000, thorough);
     // first opens of one database path from several threads (yield points in the SQLite constructors)
     crate::c13::concurrent_opens(rep, thorough);
     rep.sample(json!({"programs": [["SnapCreate{g:0,name:1}"], ["MlsState{g:0,val:2}", "SaveGroup{g:0,name:1,epoch:2}"]], "schedule_points": "every lock acquisition of the backend", "oracle": "call results + full read surface + (rollback to snap1, full read surface) equal those of a sequential order respecting program and real-time order"}));
